@@ -129,6 +129,9 @@ def runCase (hdr : List String) (ops : List String) : List String :=
     | some "maxd7" => cmpMaxD7
     | some "half" => cmpHalf
     | _ => cmpMin
+  -- `huge=1`: heaps of 2^18 .. 5*10^6 entries behind single `bulk` lines, judged by the harness oracle alone; the
+  -- executable Model is not run at that size and the executor prints `ok` per line as well (a panic still differs)
+  if (headerGet hdr "huge").isSome then ops.map fun _ => "ok" else
   match headerGet hdr "comp" with
   | some "ibinary" => runGeneric (IBinary.step cmp eqS) dumpBinary (IBinary.new cap) ops
   | some "ibinomial" => runGeneric (IBinomial.step cmp eqS) dumpBinomial (IBinomial.new cap) ops
